@@ -47,9 +47,15 @@ def pack_enum(k, pack):
     return packs
 
 
-def grammars(tier, seed):
+def grammars(tier, seed, name='core'):
     cfg = THOROUGH if tier == 'thorough' else QUICK
     out = []
+    if name == 'switch':
+        for i in range(cfg['switchshape'] * 3):
+            out.append(('w%d' % i, GG.gen_grammar(seed, i, 'switch'), 'switchshape'))
+        for i in range(cfg['random'] // 2):
+            out.append(('r%d' % i, GG.gen_grammar(seed, i, 'core'), 'random'))
+        return out
     for i in range(cfg['random']):
         out.append(('r%d' % i, GG.gen_grammar(seed, i, 'core'), 'random'))
     for i in range(cfg['switchshape']):
@@ -73,9 +79,9 @@ def enum_inputs():
     return out
 
 
-def run_sweep(T, tier, seed, optsets):
+def run_sweep(T, tier, seed, optsets, name='core'):
     t_start = time.time()
-    gl = grammars(tier, seed)
+    gl = grammars(tier, seed, name)
     stats = {'grammars': len(gl), 'optsets': optsets, 'ops': {}, 'kinds': {}}
     for gid, g, kind in gl:
         stats['kinds'][kind] = stats['kinds'].get(kind, 0) + 1
@@ -90,18 +96,40 @@ def run_sweep(T, tier, seed, optsets):
             rid = '%s_%s' % (gid, o or 'd')
             reqs.append({'id': rid, 'text': text, 'opts': o, 'tree': True, 'compile': True, 'ir': True, 'src': True})
             meta[rid] = (gid, g, kind, o, text)
-    real = T.run_pegx_parallel(reqs)
+    real = T.run_pegx_parallel(reqs, timeout=90)
     realby = {x['id']: x for x in real}
-    res = {'emit_diffs': [], 'front_problems': [], 'vet_bad': {}, 'run_diffs': [], 'stats': stats}
-    mreqs = []
+    res = {'emit_diffs': [], 'front_problems': [], 'vet_bad': {}, 'run_diffs': [], 'nilcase': [], 'slow': [], 'stats': stats}
+    allm = []
     for r in reqs:
         x = realby[r['id']]
-        if x.get('syntaxError') or x.get('panic') or x.get('crash') or x.get('timeout') or not x.get('compiled'):
+        if x.get('timeout'):
+            res['slow'].append({'id': r['id'], 'opts': r['opts'], 'text': r['text']})
+            continue
+        if x.get('syntaxError') or x.get('panic') or x.get('crash') or not x.get('tree'):
             res['front_problems'].append({'id': r['id'], 'opts': r['opts'], 'text': r['text'],
                                           'resp': {k: v for k, v in x.items() if k not in ('tree', 'go', 'ir', 'post')}})
             continue
-        mreqs.append({'id': r['id'], 'tree': x['tree'], 'opts': r['opts']})
-    model = {m['id']: m for m in T.run_model('emit', mreqs)}
+        allm.append({'id': r['id'], 'tree': x['tree'], 'opts': r['opts']})
+    model = {m['id']: m for m in T.run_model('emit', allm)}
+    mreqs = []
+    for r in allm:
+        x = realby[r['id']]
+        m = model[r['id']]
+        if not x.get('compiled'):
+            # the only modelled reason for unparsable output: `case '<nil>':` (empty first set under -switch)
+            if m.get('nilCase') and 'rune literal' in (x.get('compileError') or ''):
+                res['nilcase'].append({'id': r['id'], 'opts': r['opts'], 'text': meta[r['id']][4], 'error': x.get('compileError')})
+            else:
+                res['front_problems'].append({'id': r['id'], 'opts': r['opts'], 'text': meta[r['id']][4],
+                                              'resp': {k: v for k, v in x.items() if k not in ('tree', 'go', 'ir', 'post')}})
+            continue
+        if m.get('unusedLabel') is not None:
+            res.setdefault('model_unused_label', {})[r['id']] = m.get('unusedLabel')
+        if m.get('nilCase'):
+            res['emit_diffs'].append({'id': r['id'], 'opts': r['opts'], 'text': meta[r['id']][4],
+                                      'diff': 'model predicts an empty case list (invalid Go) but the real output compiled'})
+            continue
+        mreqs.append(r)
     stats['programs'] = len(mreqs)
     for r in mreqs:
         x = realby[r['id']]
@@ -223,6 +251,10 @@ def run_sweep(T, tier, seed, optsets):
                     d = L.obs_equal(ro, rb, 'n' not in o)
                 if d:
                     cross.append({'kind': 'opts', 'k': k, 'opts': o, 'base': base, 'text': text, 'entry': e, 'input': inputs_of[gid][int(ii)], 'fields': d, 'a': ro, 'b': rb})
+    model_bad = set(d['k'] for d in res['run_diffs'] if d.get('fields_model'))
+    for c in cross:
+        kb = c['k']
+        c['model_agrees'] = c['k'] not in model_bad
     res['cross'] = cross
     stats['memo_pairs'] = sum(1 for k in realobs if k.split('|')[2] == '1' and 'n' not in meta[k.split('|')[0]][3])
     stats['opts_pairs'] = {}
@@ -248,7 +280,7 @@ def get_sweep(T, tier, seed, optsets=None, name='core'):
         if os.path.exists(path):
             with open(path) as fh:
                 return json.load(fh)
-        res = run_sweep(T, tier, seed, optsets)
+        res = run_sweep(T, tier, seed, optsets, name)
         L.write_json(path, res)
         return res
     finally:
